@@ -534,6 +534,13 @@ class VwApiMode(vlib.Mode):
                 if not isjson and not is_err and not fails:
                     fails.append(("nonjson-accepted", f"{self.pretty(l)} is not JSON but was not answered with an error"))
                 d = dec.split(" ") if dec else []
+                # a command that itself carries no verb or no `what` is invalid whatever came before it: it must be answered with an error
+                # and change nothing (fields of an earlier command must not stand in for the missing ones)
+                if len(d) >= 3 and d[0] == "0" and (d[1] == "-" or (d[2] == "-" and d[1] != hx("healthcheck"))) and isjson and not fails:
+                    if not is_err:
+                        fails.append(("incomplete-command-executed", f"{self.pretty(l)} has no {'verb' if d[1] == '-' else 'what'} of its own but was not answered with an error"))
+                    elif cur != prev:
+                        fails.append(("error-changed-rules", f"{self.pretty(l)} answered with an error but the rules changed: {prev} -> {cur}"))
                 if len(d) >= 4 and d[0] == "0" and d[1] == hx("delete") and d[2] == hx("destination"):
                     if d[3] in (hx("all"), hx("deleteAll")) and not is_err:
                         want = {apikey} if api != b"" else set()
